@@ -379,7 +379,7 @@ theorem holds_mkForall (M : Model) (ρ : Valuation) (hρ : Admissible M ρ) (x :
     exact H v hv
 
 /-- `all` is logical only at `(T ⇒ bool) ⇒ bool` -/
-theorem logicalKind_all {A T : Ty} {j : Nat} (hA : logicalKind "all" A = some (j, T)) :
+theorem logicalKind_all_var {A T : Ty} {j : Nat} (hA : logicalKind "all" A = some (j, T)) :
     A = Ty.fn (Ty.fn T Ty.bool) Ty.bool := by
   unfold logicalKind at hA
   split at hA
@@ -395,7 +395,7 @@ theorem holds_all_abs (M : Model) (ρ : Valuation) (hρ : Admissible M ρ) (A : 
     (b : Term) (hb : Term.checkedGetType [T] b = .ok Ty.bool)
     (hA : logicalKind "all" A = some (2, T)) :
     holds M ρ (.comb (.const "all" A) (.abs y T b)) ↔ ∀ v, v < M.size T → sem M ρ [T] [v] b = 1 := by
-  have hAeq : A = Ty.fn (Ty.fn T Ty.bool) Ty.bool := logicalKind_all hA
+  have hAeq : A = Ty.fn (Ty.fn T Ty.bool) Ty.bool := logicalKind_all_var hA
   subst hAeq
   have hlt : Term.checkedGetType [] (.abs y T b) = .ok (Ty.fn T Ty.bool) := by
     simp only [Term.checkedGetType, bind, Except.bind, hb]
